@@ -180,7 +180,8 @@ class HelpersMachine(Machine):
             if rng.random() < 0.06:
                 # the documented way of printing a table; whatever it returns, the table is the
                 # table it was (checked by the per-step comparison with the model)
-                return {"op": "convert", "how": rng.choice(["to_dataframe", "to_text", "data"])}
+                return {"op": "convert", "how": rng.choice(["to_dataframe", "to_text", "data",
+                                                              "data_edit"])}
             if self.keyed:
                 keys = c["keys"]
                 present = list(self.model)
@@ -225,7 +226,7 @@ class HelpersMachine(Machine):
         # row collector
         if self.cols_known and rng.random() < 0.06:
             return {"op": "convert", "how": rng.choice(["to_dataframe", "to_text", "to_dict",
-                                                          "to_dataframe_cols"])}
+                                                          "to_dataframe_cols", "deepcopy"])}
         r = rng.random()
         n = len(self.rows)
         row = [self._cell(rng, t) for t in self.types]
@@ -350,6 +351,26 @@ class HelpersMachine(Machine):
                 elif op["how"] == "to_text":
                     got = len(t.to_text().splitlines()) - 1
                     t.to_text()                       # twice: printing is repeatable
+                elif op["how"] == "data_edit":
+                    # the caller scribbles over the export it was handed: the table is not its export
+                    d = t.data()
+                    got = len(d)
+                    for rec in (d.values() if isinstance(d, dict) else d):
+                        for f in list(rec):
+                            rec[f] = "scribble"
+                        rec.clear()
+                    if isinstance(d, dict):
+                        d.clear()
+                elif op["how"] == "deepcopy":
+                    # an independent copy is filled further: the original is not
+                    import copy as _copy
+                    c = _copy.deepcopy(t)
+                    got = len(c)
+                    row = [0] * len(self.fields)
+                    if self.keyed:
+                        c.append("copykey", row)
+                    else:
+                        c.append(row)
                 else:
                     got = len(t.data())
             except Exception as e:
@@ -552,6 +573,12 @@ class HelpersMachine(Machine):
                 elif op["how"] == "to_text":
                     rc.to_text()
                     got = len(self.rows)
+                elif op["how"] == "deepcopy":
+                    import copy as _copy
+                    c = _copy.deepcopy(rc)
+                    got = c.size()
+                    if self.rows:
+                        c.append([getattr(c, col)[0] for col in self.cols])
                 else:
                     d = rc.to_dict()
                     got = len(d[self.cols[0]])
